@@ -77,6 +77,33 @@ def gen_c07(g, lines, k):
         g.count("wire_c07_%s_%s" % (tr, "rcvd" if rcvd else "norcvd"))
     lines.append("wire end")
 
+def gen_c07_outbound(g, lines, k):
+    """a listener created for a connection the proxy dialed itself (tcp:// backend): the backend talks back
+    over that connection; its requests must be stamped like any other (received-support on)"""
+    base = 21000 + NONCE * 800 + 400 + k * 12
+    lip, P, T, BP, UP = "127.0.0.1", base, base + 1, base + 2, base + 3
+    no_received = [None, True][k % 2]
+    rcvd = not no_received
+    be = "127.0.1.1:%d" % BP
+    ua = "127.0.2.1:%d" % UP
+    lines.append("wire listen %s" % hx(be))
+    lines.append("wire start %s" % hx(yaml_cfg("svc.test", lip, P, T, no_received, ["tcp://" + be])))
+    lines.append("wire bind %s" % hx(ua))
+    own = "SIP/2.0/UDP %s:%d;branch=%s" % (lip, P, BR)
+    v1 = Via("UDP", "127.0.2.9", UP, [("branch", "z9hG4bK" + g.word(ALNUM.upper(), 6, 9)), ("rport", "")])
+    r1 = msg("OPTIONS sip:svc.test SIP/2.0", [("Via", v1.text()), ("From", "<sip:a@ua.test>;tag=1"), ("To", "<sip:b@svc.test>"), ("Call-ID", g.word(ALNUM, 8, 12)), ("CSeq", "1 OPTIONS")])
+    lines.append("wire udp %s %s %s" % (hx(ua), hx("%s:%d" % (lip, P)), hx(r1)))
+    e1 = v1.stamped("127.0.2.1", UP) if rcvd else v1
+    lines.append("wire accepted %s 1500 msg=%s # spec=C07 dest T %s # spec=C07 vias %s" % (hx(be), hx(r1), hx(be), hxs([own, e1.text()])))
+    # the backend sends a request of its own over the connection the proxy opened
+    v2 = Via("TCP", "10.9.9.9", 5099, [("branch", "z9hG4bK" + g.word(ALNUM.upper(), 6, 9)), ("rport", "")])
+    r2 = msg("MESSAGE sip:svc.test SIP/2.0", [("Via", v2.text()), ("From", "<sip:be@be.test>;tag=9"), ("To", "<sip:b@svc.test>"), ("Call-ID", g.word(ALNUM, 8, 12)), ("CSeq", "7 MESSAGE")])
+    lines.append("wire accwrite %s %s" % (hx(be), hx(r2)))
+    e2 = v2.stamped("127.0.1.1", BP) if rcvd else v2
+    lines.append("wire accepted %s 1500 msg=%s # spec=C07 dest T %s # spec=C07 vias %s" % (hx(be), hx(r2), hx(be), hxs([own, e2.text()])))
+    g.count("wire_c07_outbound_%s" % ("rcvd" if rcvd else "norcvd"))
+    lines.append("wire end")
+
 def generate(seed, tier, focus="c07"):
     g = Gen(seed)
     lines = []
@@ -84,4 +111,6 @@ def generate(seed, tier, focus="c07"):
     for k in range(n):
         if focus == "c07":
             gen_c07(g, lines, k)
+            if k < (2 if tier == "quick" else 20):
+                gen_c07_outbound(g, lines, k)
     return lines, g.stats
